@@ -631,6 +631,12 @@ func (g *gen) text() {
 	}
 	s := sb.String()
 	s = strings.ReplaceAll(s, "<%", "< %")
+	if strings.HasSuffix(s, "<") {
+		s += " " // the next text run could begin with '%'
+	}
+	if strings.HasPrefix(s, "%") {
+		s = " " + s // ... and the previous one end with '<'
+	}
 	// a '<' at the very end could join a following tag's '%'... tags start with "<%", so "<" + "<%" is fine
 	g.cur.write(s)
 }
@@ -1401,6 +1407,11 @@ func (g *gen) failingPiece() {
 		{"toJSON-of-func", "toJSON(pv)"},
 		{"missing-field", "obj.Nofield"},
 		{"regex-does-not-compile", `s1 ~= "(["`},
+		{"float-division-by-zero", "f64 / 0.0"},
+		{"call-a-string", `s1(1)`},
+		{"string-minus", `s1 - 1`},
+		{"index-equals-length", "xs[3]"},
+		{"index-a-number", "n1[0]"},
 	}...)
 	k := kinds[g.intn("failkind", 0, len(kinds)-1)]
 	g.p.Failing = k.kind
